@@ -95,14 +95,15 @@ func stripPort(h string) string {
 	return h
 }
 
-// expectRedaction runs the file channel of the CLI on payload (saved as .gz)
-// under flags: ties "<out>.<i> is the redaction of host i's log" to C06
-// instead of re-modelling redaction.
-func expectRedaction(s *sut.SUT, flags []string, gzPayload []byte) ([]byte, bool) {
+// expectRedaction runs the plain-file channel of the CLI on the RAW (uncompressed) log of a
+// host under flags. "<out>.<i> is the redaction of host i's log" is thereby tied to C06 without
+// sharing the gzip path with the run under test (a defect in gzip handling would otherwise
+// cancel out on both sides).
+func expectRedaction(s *sut.SUT, flags []string, rawPayload []byte) ([]byte, bool) {
 	dir := s.TempDir("exp")
 	defer os.RemoveAll(dir)
-	p := filepath.Join(dir, "payload.log.gz")
-	os.WriteFile(p, gzPayload, 0o644)
+	p := filepath.Join(dir, "payload.log")
+	os.WriteFile(p, rawPayload, 0o644)
 	outp := filepath.Join(dir, "o.log")
 	r := s.CLI(sut.Run{Args: append(append([]string{"redact"}, flags...), p, "-o", outp), Dir: dir})
 	b, _ := os.ReadFile(outp)
